@@ -20,7 +20,7 @@ void uk_sym_bytes(void *p, size_t n, const char *name){ size_t i; (void)name; fo
 void uk_sym_words(void *p, size_t n, const char *name){ size_t i; (void)name; for (i = 0; i < n; i++) ((uint32_t *)p)[i] = (uint32_t)next_val(); }
 int  uk_sym_int(const char *name){ (void)name; return (int)next_val(); }
 long uk_sym_long(const char *name){ (void)name; return (long)next_val(); }
-int  uk_choice(int n, const char *name){ long long v = next_val(); (void)name; if (v < 0 || v >= n) fail("SETUP", "choice out of range"); return (int)v; }
+int  uk_choice(int n, const char *name){ long long v; if (n <= 1) return 0; /* no input is recorded for a choice among one */ v = next_val(); (void)name; if (v < 0 || v >= n) fail("SETUP", "choice out of range"); return (int)v; }
 void uk_assume(int c){ if (!c){ fprintf(stderr, "UK_ASSUME_FALSE\n"); exit(0); } }
 void uk_assert(int c, const char *msg){ if (!c) fail("ASSERT_FAIL", msg); }
 void uk_cover(const char *label){ (void)label; }
